@@ -289,49 +289,68 @@ theorem inv_step (s s' : State) (l : Label) (h : Inv s) (hs : step s l = some s'
       · split at hs
         · cases hs
         · rename_i hfresh
-          split at hs
-          · cases hs
-          · rename_i hempty
-            cases hs
-            have hnil : s.notifyTasks = [] := by simpa using hempty
-            have hfresh' : ev ∉ s.stored := by simpa using hfresh
-            apply inv_say
-            constructor
-            case tasks_nodup =>
-              have : (s.registry.map fun r => (ev, r.inst)) = (s.registry.map (·.inst)).map fun i => (ev, i) := by simp
-              show (s.registry.map fun r => (ev, r.inst)).Nodup
+          cases hs
+          have hfresh' : ev ∉ s.stored := by simpa using hfresh
+          -- no task of the new round is already pending or resolved: its event is fresh
+          have hnew_not_old : ∀ p ∈ (s.registry.map fun r => (ev, r.inst)), p ∉ s.notifyTasks ∧ p ∉ s.resolved := by
+            intro p hp
+            simp only [List.mem_map] at hp
+            obtain ⟨r, _, rfl⟩ := hp
+            exact ⟨fun hm => hfresh' (h.tasks_stored _ hm), fun hm => hfresh' (h.resolved_stored _ hm)⟩
+          apply inv_say
+          constructor
+          case tasks_nodup =>
+            show (s.notifyTasks ++ s.registry.map fun r => (ev, r.inst)).Nodup
+            rw [List.nodup_append]
+            refine ⟨h.tasks_nodup, ?_, ?_⟩
+            · have : (s.registry.map fun r => (ev, r.inst)) = (s.registry.map (·.inst)).map fun i => (ev, i) := by simp
               rw [this]; exact nodup_map_pair ev _ h.reg_nodup
-            case tasks_stored =>
-              intro p hp
-              replace hp : p ∈ s.registry.map fun r => (ev, r.inst) := hp
-              show p.1 ∈ s.stored ++ [ev]
-              simp only [List.mem_map] at hp
+            · intro a ha b hb hab
+              subst hab
+              exact (hnew_not_old a hb).1 ha
+          case tasks_stored =>
+            intro p hp
+            replace hp : p ∈ s.notifyTasks ++ s.registry.map fun r => (ev, r.inst) := hp
+            show p.1 ∈ s.stored ++ [ev]
+            rcases List.mem_append.mp hp with hp | hp
+            · simp only [List.mem_append]; left; exact h.tasks_stored p hp
+            · simp only [List.mem_map] at hp
               obtain ⟨r, _, rfl⟩ := hp
               simp
-            case tasks_lt =>
-              intro p hp
-              replace hp : p ∈ s.registry.map fun r => (ev, r.inst) := hp
-              simp only [List.mem_map] at hp
+          case tasks_lt =>
+            intro p hp
+            replace hp : p ∈ s.notifyTasks ++ s.registry.map fun r => (ev, r.inst) := hp
+            rcases List.mem_append.mp hp with hp | hp
+            · exact h.tasks_lt p hp
+            · simp only [List.mem_map] at hp
               obtain ⟨r, hr, rfl⟩ := hp
               exact h.reg_lt r hr
-            case resolved_stored =>
-              intro p hp
-              show p.1 ∈ s.stored ++ [ev]
-              simp only [List.mem_append]; left; exact h.resolved_stored p hp
-            case tasks_unresolved =>
-              intro p hp hr
-              replace hp : p ∈ s.registry.map fun r => (ev, r.inst) := hp
-              simp only [List.mem_map] at hp
-              obtain ⟨r, _, rfl⟩ := hp
-              exact hfresh' (h.resolved_stored _ hr)
-            case targeted_iff =>
-              intro p
-              show p ∈ s.targeted ++ (s.registry.map fun r => (ev, r.inst)) ↔ p ∈ (s.registry.map fun r => (ev, r.inst)) ∨ p ∈ s.resolved
-              simp only [List.mem_append]
-              rw [h.targeted_iff p, hnil]
-              simp only [List.not_mem_nil, false_or]
-              exact Or.comm
-            all_goals keep h
+          case resolved_stored =>
+            intro p hp
+            show p.1 ∈ s.stored ++ [ev]
+            simp only [List.mem_append]; left; exact h.resolved_stored p hp
+          case tasks_unresolved =>
+            intro p hp hr
+            replace hp : p ∈ s.notifyTasks ++ s.registry.map fun r => (ev, r.inst) := hp
+            rcases List.mem_append.mp hp with hp | hp
+            · exact h.tasks_unresolved p hp hr
+            · exact (hnew_not_old p hp).2 hr
+          case targeted_iff =>
+            intro p
+            show p ∈ s.targeted ++ (s.registry.map fun r => (ev, r.inst)) ↔
+              p ∈ s.notifyTasks ++ (s.registry.map fun r => (ev, r.inst)) ∨ p ∈ s.resolved
+            simp only [List.mem_append]
+            rw [h.targeted_iff p]
+            constructor
+            · rintro ((a | a) | a)
+              · left; left; exact a
+              · right; exact a
+              · left; right; exact a
+            · rintro ((a | a) | a)
+              · left; left; exact a
+              · right; exact a
+              · left; right; exact a
+          all_goals keep h
   | notify ev i isMatch =>
     simp only [step] at hs
     split at hs
